@@ -88,13 +88,11 @@ def _explore(cell, mode, stats):
                 claims.append(("overall=history[-1]", EV.of(hs[-1])._eq(pe)))
         for name, c in claims:
             if mode == "abstract":
-                before = ex.stats.inconclusive
+                before = (ex.stats.inconclusive, ex.stats.sat, ex.stats.obligations)
                 r, m = ex.prove(_b(c), timeout_ms=10000)
                 if r != 'unsat':
                     state['open'] += 1
-                    ex.stats.inconclusive = before      # decided (or not) by the exact stage
-                    if r == 'sat':
-                        ex.stats.sat -= 1
+                    ex.stats.inconclusive, ex.stats.sat, ex.stats.obligations = before      # decided (or not) by the exact stage
             else:
                 r, m = ex.prove(_b(c))
                 if r == 'sat':
